@@ -153,6 +153,7 @@ def run(ctx):
         if not r.startswith("E") and len(ctx.violations) < 40:
             info = {"kind": "schema-nothing", "S": t, "implementation": r, "expected": "an error"}
             ctx.report("schema Len(%r) = %s although the text does not begin with a schema" % (t, r), "schemalen-nothing:" + t, info, case=info)
+    ctx.classifiers["enum_nothing"] = lambda case: isinstance(case, dict) and case.get("kind") == "enum-nothing" and case.get("S", "x").strip(" \t\r\n") == ""
     enothing = ["", " ", "\n", " \t\r\n ", "// c", "// c\n", "/* c */"]
     for t, o in zip(enothing, vc.impl(["enumrule"], [json.dumps({"text": t}) for t in enothing])):
         r = json.loads(o)[1]
